@@ -30,7 +30,7 @@ BUDGET = {'quick': 50, 'thorough': 600}
 CHUNK = {'quick': 8, 'thorough': 16}
 RULE = ('one case = one seeded seed task (grid: factor 2 / sqrt2 / custom resolution list / resolutions with near-coincident tile borders, square or non-square extent, ll or '
         'ul origin; level subset as list / range / open or zero-ended range / beyond the last level / by resolution; coverage: none / bbox / concave polygon / multi-polygon / edge-hugging bbox / exactly one coarse tile / two coverages, in the grid SRS or spelled in EPSG:4326; meta size 1-3; progress cadence; '
-        'per-hand-off simulated work time) run once uninterrupted and once with 1-3 seeded interruptions (exception or hard '
+        'per-hand-off simulated work time; with two caches optionally another seeder holding the cache lock of one of them for a while) run once uninterrupted and once with 1-3 seeded interruptions (exception or hard '
         'kill at a hand-off, at a line event of the seeding code, or inside the progress-file write) each followed by a '
         'restart from the saved progress; non-trivial = the interrupted run resumed from a non-empty progress file and '
         'skipped at least one subtree; distinct = distinct (task, interruption points) hash')
@@ -87,6 +87,9 @@ def gen(t, tier):
           'skip_geoms': t.pick([0, 0, 0, 1, 2]), 'verbose': bool(t.choice(2)),
           'work': t.pick([0.0, 0.01, 0.3, 0.6, 2.0, 31.0]),
           'interrupts': []}
+    if sc['caches'] == 2 and t.chance(0.6):
+        # --use-cache-lock: another seeding process holds the lock of one of the two caches for a while after each (re)start
+        sc['cache_lock'] = {'task': t.choice(2), 'for': t.pick([0.005, 0.5, 5.0, 100.0])}
     if gk == 'near' and t.chance(0.6):
         sc['coverage'] = 'tilebox'
         sc['cov_seed'][0] = 0           # a tile of level 0
@@ -106,7 +109,7 @@ def shrink(sc):
             yield c
     if sc['coverage'] == 'edge':
         pass
-    for key, simple in (('coverage', 'none'), ('caches', 1), ('cov_srs', '3857'), ('meta_size', [1, 1]), ('levels', 'all'), ('skip_geoms', 0),
+    for key, simple in (('coverage', 'none'), ('cache_lock', None), ('caches', 1), ('cov_srs', '3857'), ('meta_size', [1, 1]), ('levels', 'all'), ('skip_geoms', 0),
                         ('verbose', True)):
         if sc.get(key, simple) != simple:
             c = copy.deepcopy(sc)
@@ -349,6 +352,34 @@ def _expected(grid, meta, levels, geom, skip_geoms):
                     allowed.add((X, Y, z))
     return must, allowed
 
+class _OtherSeederHoldsLock(object):
+    """stands in for mapproxy.seed.cachelock.CacheLocker (an SQLite table shared by the seeding processes): another process
+    holds the lock of some caches until a given simulated time; every attempt costs a little time, as a transaction would"""
+
+    def __init__(self, clock, held, probes):
+        self.clock = clock
+        self.held = held
+        self.probes = probes
+
+    def lock(self, cache_name, no_block=False):
+        import contextlib
+        from mapproxy.seed.cachelock import CacheLockedError
+        locker = self
+
+        @contextlib.contextmanager
+        def cm():
+            locker.clock.now += 0.01
+            until = locker.held.get(cache_name)
+            if until is not None and locker.clock.now < until:
+                if no_block:
+                    locker.probes['cache_locked_by_other_seeder'] = locker.probes.get('cache_locked_by_other_seeder', 0) + 1
+                    raise CacheLockedError()
+                locker.probes['waited_for_cache_lock'] = locker.probes.get('waited_for_cache_lock', 0) + 1
+                locker.clock.now = until
+            yield
+        return cm()
+
+
 
 def run(sc, tape):
     seeder = C.import_seeder_threaded()
@@ -478,8 +509,13 @@ def run(sc, tape):
                 out = io.StringIO()
                 import contextlib
                 with contextlib.redirect_stdout(out):
-                    seed(tasks(), concurrency=1, dry_run=False, skip_geoms_for_last_levels=sc['skip_geoms'],
-                         progress_logger=logger)
+                    tasks_ = tasks()
+                    locker = None
+                    if sc.get('cache_lock') and len(tasks_) > 1:
+                        held = {tasks_[sc['cache_lock']['task'] % len(tasks_)].md['cache_name']: clock.now + sc['cache_lock']['for']}
+                        locker = _OtherSeederHoldsLock(clock, held, probes)
+                    seed(tasks_, concurrency=1, dry_run=False, skip_geoms_for_last_levels=sc['skip_geoms'],
+                         progress_logger=logger, cache_locker=locker)
 
             # 1. uninterrupted run
             one_segment(False)
